@@ -468,11 +468,11 @@ def r4_constants(program, folder, rep):
 def check(program, rep):
     program.module(MOD)
     folder = Folder(program)
-    res = r1_encoder(program, folder, rep)
+    res = rep.guard("C15-R1", r1_encoder, program, folder, rep)
     if res:
-        r2_decoder(program, folder, rep, *res)
-    r3_scp(program, folder, rep)
-    r4_constants(program, folder, rep)
+        rep.guard("C15-R2", r2_decoder, program, folder, rep, *res)
+    rep.guard("C15-R3", r3_scp, program, folder, rep)
+    rep.guard("C15-R4", r4_constants, program, folder, rep)
     return finish(rep, program, EXPLANATION, NOT_DECIDED,
                   trusted=["the documented SDP header table SDP_LAYOUT in "
                            "rules/C15.py", "struct format semantics "
